@@ -43,6 +43,8 @@ def run(prog, R, tier="quick", only_rule=None):
     from rules.props import c02, c06
     c02.c02a(prog, R, rid="C17.e1")
     c06.c06c(prog, R, rid="C17.e2")
+    # snapshots taken before the compaction keep resolving against the version they pinned (also the blob side of a scan)
+    c02.c02d(prog, R, rid="C17.e3")
 
 
 def c17a(prog, R):
